@@ -429,3 +429,52 @@ Proof.
   exists (at_fix o). unfold at_fix. split; [reflexivity|]. unfold valid_partial.
   destruct (bytes_eqb o [at_]) eqn:E; [reflexivity|]. rewrite Hv, E. reflexivity.
 Qed.
+
+(* ---- a valid name is left alone ----------------------------------------------------------------- *)
+Lemma sstep_valid b rin rout : step_ok b rin = true -> sstep b rin rout = b :: rout.
+Proof.
+  unfold step_ok, sstep.
+  destruct (is_invalid_byte b); [intros H; discriminate H|].
+  destruct (beqb b star); [intros H; discriminate H|].
+  destruct (beqb b dot && beqb (hd x00 rin) dot); [intros H; discriminate H|].
+  destruct (beqb b dot && beqb (hd x00 rin) slash); [intros H; discriminate H|].
+  destruct (beqb b lbrace && beqb (hd x00 rin) at_); [intros H; discriminate H|].
+  destruct (beqb b slash && beqb (hd x00 rin) slash); [intros H; discriminate H|].
+  destruct (beqb b slash && rlock rin); [intros H; discriminate H|]. reflexivity.
+Qed.
+
+Lemma gloop_true_valid : forall rest rin,
+  steps_ok rest rin = true -> (rest <> [] -> rlock6 (rev rest ++ rin) = false) ->
+  gloop true rest rin rin = Ok (rev rest ++ rin).
+Proof.
+  induction rest as [|b rest IH]; intros rin Hs H6; [reflexivity|].
+  cbn [steps_ok] in Hs. apply Bool.andb_true_iff in Hs. destruct Hs as [Hb Hs].
+  rewrite gloop_true_step, (sstep_valid b rin rin Hb).
+  cbn [rev] in H6 |- *. rewrite <- app_assoc in H6 |- *. cbn [app] in H6 |- *.
+  destruct rest as [|c rest].
+  - cbn [is_nil andb rev app] in H6 |- *. rewrite (H6 ltac:(discriminate)). reflexivity.
+  - cbn [is_nil andb]. apply IH; [exact Hs|]. intros _. apply H6. discriminate.
+Qed.
+
+Lemma ref_sanitize_id s : valid_partial s = true -> ref_sanitize s = Ok s.
+Proof.
+  unfold valid_partial, valid_tag. intros H.
+  repeat (apply Bool.andb_true_iff in H; destruct H as [H ?]).
+  repeat match goal with Hx : negb _ = true |- _ => apply Bool.negb_true_iff in Hx end.
+  assert (Hne : s <> []) by (destruct s; [discriminate|discriminate]).
+  unfold ref_sanitize, validate, name_inner.
+  destruct s as [|a s']; [congruence|]. set (s := a :: s') in *.
+  rewrite !Bool.andb_false_r, loop_from_start.
+  assert (Hst : steps_ok s [] = true).
+  { match goal with Hx : pre_ok (rev s) = true |- _ =>
+      rewrite <- (app_nil_r (rev s)), pre_ok_steps in Hx; apply Bool.andb_true_iff in Hx; exact (proj1 Hx) end. }
+  rewrite (gloop_true_valid s [] Hst) by (intros _; rewrite app_nil_r; assumption).
+  cbn [obind]. rewrite app_nil_r, finish_true.
+  assert (Htr : trimmed (rev s) = s).
+  { unfold trimmed. cbv zeta. rewrite (ds_id (rev s)) by (rewrite hd_rev_last'; assumption).
+    rewrite rev_involutive, (ds_id s) by assumption. reflexivity. }
+  rewrite Htr. unfold fix_first.
+  match goal with Hx : beqb (hd x00 s) dot = false |- _ => rewrite Hx end.
+  unfold fix_last. match goal with Hx : beqb (last s x00) dot = false |- _ => rewrite Hx end.
+  cbn [obind]. match goal with Hx : bytes_eqb s [at_] = false |- _ => rewrite Hx end. reflexivity.
+Qed.
